@@ -116,11 +116,13 @@ def source_grep():
     return hits
 
 
-def audit_axioms(module: str, theorems: list[str], timeout=1200):
+def audit_axioms(modules, theorems: list[str], timeout=1200):
     """#print axioms for every theorem; returns {name: set(axioms) | None if missing}, raw log."""
-    tmp = LEAN_DIR / ".lake" / f"audit_{module.replace('.', '_')}_{os.getpid()}.lean"
+    if isinstance(modules, str):
+        modules = [modules]
+    tmp = LEAN_DIR / ".lake" / f"audit_{modules[0].replace('.', '_')}_{os.getpid()}.lean"
     tmp.parent.mkdir(exist_ok=True)
-    lines = [f"import {module}"]
+    lines = [f"import {m}" for m in modules]
     for t in theorems:
         lines.append(f"#print axioms {t}")
     tmp.write_text("\n".join(lines) + "\n")
@@ -348,8 +350,8 @@ def write_evidence(ctx: Ctx, violations: int):
     cov = {
         "obligations": n_ob,
         "discharged": n_ok,
-        "checker_cmd": f"cd {LEAN_DIR} && lake build QProps.{ctx.prop} && lake env lean <generated #print axioms file>"
-        + (" && lake env leanchecker QProps." + ctx.prop if ctx.tier == "thorough" else ""),
+        "checker_cmd": f"cd {LEAN_DIR} && lake build {ctx.extra.get('lean_modules', 'QProps.' + ctx.prop)} && lake env lean <generated #print axioms file>"
+        + (" && lake env leanchecker " + ctx.extra.get('lean_modules', 'QProps.' + ctx.prop) if ctx.tier == "thorough" else ""),
         "trusted_base": TRUSTED_BASE,
         "obligation_list": [{k: o[k] for k in ("name", "kind", "ok")} for o in ctx.obligations],
         "evaluations": ctx.evaluations,
@@ -380,7 +382,7 @@ def write_evidence(ctx: Ctx, violations: int):
 
 # --------------------------------------------------------------------------- proof side shared by all properties
 
-def proof_side(ctx: Ctx, theorems: list[str], extra_targets=()):
+def proof_side(ctx: Ctx, theorems: list[str], extra_targets=(), modules=None):
     """tables → lake build → grep → axioms audit (+ leanchecker in thorough tier)."""
     from . import extract_tables
 
@@ -389,20 +391,22 @@ def proof_side(ctx: Ctx, theorems: list[str], extra_targets=()):
         ctx.obligation("tables:regenerated-from-live-repo", "tie-A", True, f"changed={changed}")
     except Exception as e:  # the live modules no longer import / expose the tables
         ctx.obligation("tables:regenerated-from-live-repo", "tie-A", False, repr(e))
-    mod = f"QProps.{ctx.prop}"
-    ok, out = lake_build([mod, "driver", *extra_targets])
+    mods = modules or [f"QProps.{ctx.prop}"]
+    ctx.extra["lean_modules"] = " ".join(mods)
+    mod = " ".join(mods)
+    ok, out = lake_build([*mods, "driver", *extra_targets])
     ctx.obligation(f"lake build {mod} driver", "build", ok, out)
     hits = source_grep()
     ctx.obligation("source grep: no sorry/admit/axiom/native_decide/bv_decide/implemented_by/unsafe", "audit", not hits, "\n".join(hits))
     if ok:
-        res, out = audit_axioms(mod, theorems)
+        res, out = audit_axioms(mods, theorems)
         for t in theorems:
             ax = res[t]
             good = ax is not None and ax <= ALLOWED_AXIOMS
             ctx.obligation(f"theorem {t}", "theorem", good,
                            "missing" if ax is None else "axioms: " + ", ".join(sorted(ax)))
         if ctx.tier == "thorough":
-            okc, outc = leanchecker([mod])
+            okc, outc = leanchecker(mods)
             ctx.obligation(f"leanchecker {mod}", "recheck", okc, outc)
     else:
         for t in theorems:
